@@ -129,6 +129,9 @@ fn one_run(args: &Args, rng: &mut Rng, run: u64) -> (Vec<vcore::trace::Item>, se
                 let got = w.drain(i);
                 pools.learn(i, &got);
             }
+            if rng.chance(1, 2) {
+                w.answer_shutdowns(rng.chance(1, 3));
+            }
         } else if !live.is_empty() {
             let i = *rng.pick(&live);
             let msg = pools.gen(rng, i, args.profile);
@@ -195,8 +198,15 @@ fn one_run(args: &Args, rng: &mut Rng, run: u64) -> (Vec<vcore::trace::Item>, se
         }
     }
     w.spawn_shutdown_idle();
-    if w.run(rng, STEP_BOUND) == RunOutcome::StepBound {
-        stuck = true;
+    loop {
+        if w.run(rng, STEP_BOUND) == RunOutcome::StepBound {
+            stuck = true;
+            break;
+        }
+        // clients that were told to shut down answer (a connection task waits for that)
+        if w.answer_shutdowns(rng.chance(1, 3)) == 0 {
+            break;
+        }
     }
     // connections whose task was dropped are only noticed on a failed send: close their transport
     // is not possible (the task is gone), so the broker may legitimately keep them (DESIGN 2.5).
